@@ -70,6 +70,8 @@ type Case struct {
 	// keyed-but-cleartext state the secret hand-over uses): frames travel in the clear and must round-trip
 	// like on a plain stream.
 	KeyOff bool `json:"key_off,omitempty"`
+	// Dribble > 0: the receiver's connection hands out at most this many bytes per Read
+	Dribble int  `json:"dribble,omitempty"`
 	Prefix int   `json:"prefix"` // cleartext messages exchanged before the key (AES only); bit0: A->B, bit1: B->A
 	Send   int   `json:"send"`
 	Recv   int   `json:"recv"`
@@ -122,6 +124,7 @@ func runCase(c Case) result {
 		}
 	}
 	S, R := p.A, p.B
+	p.CB.MaxRead = c.Dribble
 	var expected [][]byte
 	res := result{}
 	w0 := len(p.CA.WriteLog)
@@ -459,6 +462,7 @@ func genCase(t *rapid.T) Case {
 		Salt:   rapid.Uint32().Draw(t, "salt"),
 	}
 	c.KeyOff = c.AES && rapid.IntRange(0, 3).Draw(t, "keyoff") == 0
+	c.Dribble = rapid.SampledFrom([]int{0, 0, 0, 1, 3, 7, 4096}).Draw(t, "dribble")
 	big := rapid.IntRange(0, 3).Draw(t, "bigcase") == 0 // <=25% of cases may contain >=1MiB messages
 	n := rapid.IntRange(1, 6).Draw(t, "nmsgs")
 	if big {
@@ -523,7 +527,7 @@ func TestC01Compositions(t *testing.T) {
 			for _, aes := range []bool{false, true} {
 				for _, snd := range []int{SPartials, SWriteMessage, STypedBytes} {
 					rcv := (mask + n + snd) % nRecv
-					c := Case{AES: aes, KeyOff: aes && (mask+n)%3 == 0, Prefix: (mask + n) % 4, Send: snd, Recv: rcv, Salt: uint32(n*4096 + mask),
+					c := Case{AES: aes, KeyOff: aes && (mask+n)%3 == 0, Dribble: []int{0, 1, 2, 5}[(mask+n+snd)%4], Prefix: (mask + n) % 4, Send: snd, Recv: rcv, Salt: uint32(n*4096 + mask),
 						Msgs:  []Msg{{Len: n, Cuts: cuts, Flush: uint32(mask*7 + n)}, {Len: (n + 3) % 5, Cuts: nil}},
 						Reads: []int{1 + mask%3}}
 					r := runCase(c)
